@@ -31,8 +31,8 @@ func VfC06_Selection() {
 	var log []string
 	var dialled []string
 	dialOK := nd.Bool("dial-ok")
-	backend := &vfConn{name: "backend", failAt: -1, log: &log}
-	client := &vfConn{name: "client", failAt: -1, log: &log}
+	backend := &vfConn{name: "backend", failAt: -1, slowWriteAt: -1, log: &log}
+	client := &vfConn{name: "client", failAt: -1, slowWriteAt: -1, log: &log}
 	fromClient, fromBackend := nd.Bytes("c2b", 3), nd.Bytes("b2c", 5)
 	client.reads, backend.reads = [][]byte{fromClient}, [][]byte{fromBackend}
 	oldDial := dialTimeout
